@@ -266,7 +266,7 @@ def poly_grad_float(terms, xs, n):
 DEFAULT_OPTS = dict(
     n_comps=(2, 5), max_rank=2, max_extent=3, units=True, chains=True, max_deg=2,
     scaling=False, safe_indices=False, cycles=False, auto_ivc=True, shuffle_order=False,
-    implicit=False, array_scaling=False, resp_chain=False,
+    implicit=False, array_scaling=False, resp_chain=False, prefix_names=False,
 )
 
 
@@ -424,6 +424,17 @@ def gen_md(rng, **kw):
         _add_feedback(rng, md)
     if o['resp_chain']:
         _add_response_chain(rng, md)
+    if o['prefix_names']:
+        # some component names become <name of an earlier sibling> + suffix, so that one pathname is
+        # a plain string prefix of another without being its parent ('c0' / 'c0_b', 'c1' / 'c12')
+        used = {(c['group'], c['name']) for c in comps}
+        for k, c in enumerate(comps):
+            sibs = [d for d in comps[:k] if d['group'] == c['group']]
+            if sibs and rng.random() < 0.5:
+                nm = rng.choice(sibs)['name'] + rng.choice(['2', '_b', 'x', '0'])
+                if (c['group'], nm) not in used:
+                    used.add((c['group'], nm))
+                    c['name'] = nm
     _assign_styles(rng, md)
     if o['shuffle_order']:
         order = list(range(len(comps)))
